@@ -171,7 +171,15 @@ func (g *FnGraph) ShortestCycle(start *ssa.Function, comp []*ssa.Function, remov
 // into witness cycles: repeatedly take the shortest cycle through the smallest
 // function of an SCC and cut its closing edge, until no cycle is left.
 func (g *FnGraph) Cycles(removed map[*ssa.Function]bool, max int) [][]*ssa.Function {
+	return g.CyclesCut(removed, nil, max)
+}
+
+// CyclesCut is Cycles with some call edges deleted beforehand.
+func (g *FnGraph) CyclesCut(removed map[*ssa.Function]bool, cut0 map[[2]*ssa.Function]bool, max int) [][]*ssa.Function {
 	cut := map[[2]*ssa.Function]bool{}
+	for k := range cut0 {
+		cut[k] = true
+	}
 	var out [][]*ssa.Function
 	for len(out) < max {
 		sccs := g.SCCs(removed, cut)
